@@ -380,7 +380,7 @@ fn main() {
                 "the fixture's row/column roots are re-derived with lv-core's independent NMT before the run (mismatch = machinery error)",
                 "sha-256 collision resistance: a payload differing in any byte is treated as not reproducing the DAH",
             ],
-            required_classes: &["accept", "reject:decode:EDS verification failed*", "reject:decode:Length*", "reject:decode:Empty*"],
+            required_classes: &["accept", "reject*"],
             exhaustive: true,
         },
     );
